@@ -19,6 +19,7 @@ func TestC15Regress(t *testing.T) {
 		sh := world()
 		s := &session{c: c, sh: sh, validSet: map[uint64]bool{}, poolOK: map[types.Hash]bool{}, goodBlk: map[types.Hash]bool{}}
 		s.onA, s.node, s.k, s.tip, s.policy = true, sh.a, sh.height, sh.height, "silent"
+		s.k0 = s.k
 		s.heightOf = map[types.Hash]uint64{}
 		for h := uint64(1); h <= s.tip; h++ {
 			s.heightOf[sh.hashes[h]] = h
